@@ -59,6 +59,7 @@ type vfMotionOv struct { // overrides of [thermal-motion]; nil = key omitted
 	TMin, TMax                 *int
 	Count, Gap, Trigger, Edge  *int
 	OneDiff, Warmer            *bool
+	Verbose                    *bool // logging only: must not change any file
 }
 
 type vfConf struct {
@@ -132,6 +133,7 @@ func vfWriteConfig(dir, outDir string, c vfConf) error {
 	pi("edge-pixels", m.Edge)
 	pb("use-one-diff-only", m.OneDiff)
 	pb("warmer-only", m.Warmer)
+	pb("verbose", m.Verbose)
 	fmt.Fprintf(&b, "\n[thermal-throttler]\nactivate = %v\nbucket-size = \"%ds\"\nmin-refill = \"%ds\"\n\n", c.Throttle, c.BucketS, c.RefillS)
 	fmt.Fprintf(&b, "[windows]\nstart-recording = %s\nstop-recording = %s\n\n", vfTomlString(c.WinStart), vfTomlString(c.WinEnd))
 	fmt.Fprintf(&b, "[lepton]\nframe-output = %s\n", vfTomlString(filepath.Join(dir, "frames.sock")))
